@@ -460,6 +460,17 @@ partial def loop (h : IO.FS.Stream) (out : IO.FS.Stream) (ds : DState) : IO Unit
     out.putStrLn "."
     out.flush
     loop h out ds
+  | "Q" :: fn :: rest =>
+    -- kernel correspondence: `Q fn args… = result-of-the-real-code`
+    let args := rest.takeWhile (· != "=")
+    let want := " ".intercalate (rest.dropWhile (· != "=") |>.drop 1)
+    match evalQ fn args with
+    | none => out.putStrLn s!"FAIL kernel-without-model {fn}"
+    | some got =>
+      if got != want then out.putStrLn s!"MISMATCH kernel {fn} {" ".intercalate args} model={got} go={want}"
+    out.putStrLn "."
+    out.flush
+    loop h out { ds with nOps := ds.nOps + 1 }
   | _ =>
     out.putStrLn "."
     out.flush
